@@ -130,3 +130,13 @@ package sqlite
 //@   loop 1
 //@     lwrites ghost(lasttx, h.db), ghost(txcount, h.db), ghost(commits, h.db)
 //@     invariant g(commits, h.db) == old(g(commits, h.db)) && 0 <= i && i <= 3
+
+// the seed handed to the session is the stored one: an existing row is returned unchanged, a new row holds exactly
+// the value that is returned (event keys of different sessions over one file agree)
+//@ func setOrLoadXXHashSeed
+//@   serves C14
+//@   requires db != nil
+//@   writes ghost(seedhas, db), ghost(seedval, db)
+//@   ensures result1 == nil ==> (g(seedhas, db) && result0 == g(seedval, db))
+//@   ensures old(g(seedhas, db)) ==> (g(seedhas, db) && g(seedval, db) == old(g(seedval, db)))
+
